@@ -159,7 +159,13 @@ func interpolateMap[K comparable, V any, M ~map[K]V](tf stringTransformer, m M) 
 // interpolateOrderedMap applies interpolateAny over any type of ordered.Map.
 // The map is altered in-place.
 func interpolateOrderedMap[K comparable, V any](tf stringTransformer, m *ordered.Map[K, V]) error {
-	return m.Range(func(k K, v V) error {
+	if m.IsZero() {
+		return nil
+	}
+	// Interpolate into a new map, then swap the contents: renaming keys in
+	// place could delete a later key before it has been visited.
+	out := ordered.NewMap[K, V](m.Len())
+	err := m.Range(func(k K, v V) error {
 		// We interpolate both keys and values.
 		intk, err := interpolateAny(tf, k)
 		if err != nil {
@@ -170,7 +176,12 @@ func interpolateOrderedMap[K comparable, V any](tf stringTransformer, m *ordered
 			return err
 		}
 
-		m.Replace(k, intk, intv)
+		out.Set(intk, intv)
 		return nil
 	})
+	if err != nil {
+		return err
+	}
+	*m = *out
+	return nil
 }
